@@ -17,6 +17,7 @@ COMMON_ASSUMPTIONS = [
     "stub flume::Sender::send -> never blocks/fails, counts messages by variant, forgets the message (anything that statically reaches std::thread::current() crashes kani-compiler)",
     "stub its::util::report_error -> records (mem_pos, first 6 bytes of the message, the 10 quoted word bytes)",
     "format-template reader (vsup::peek) depends on core::fmt::Arguments' layout of the pinned toolchain; validated on every run by the vsup_selftest_* harnesses",
+    "Kani 0.68 may materialise a struct-typed constant as a read from any allocation with the same bytes, including a mutable static of the harness code; all such statics have unique initial bytes, and for every goto binary the alias guard (vlib/run.py) checks that no function outside the harness/support modules and stub bodies takes their address (a hit turns the verdict into INCONCLUSIVE)",
     "reference predicates in /verif/oracle are hand-written from doc/checks_list.md, doc/ITS_payload_fsm_continuous_mode.puml, README.md, CHANGELOG (v1.21.0 detector field) and the ITS/ALPIDE word layouts",
 ]
 
